@@ -248,5 +248,4 @@ def r5(ctx):
     ctx.sub(c13.r2)    # assigning labels re-derives member_points immediately (full-equality skip condition only)
     ctx.sub(c08.r6, only=("commit:in-loop",))    # each refill is committed to the working state through the label setter
     from . import c09
-    ctx.sub(c09.r2, only=("order:repopulate<statistics", "order:statistics<optimise", "thread:->statistics", "thread:statistics->optimise",
-                          "every-round:statistics", "every-round:optimise"))    # nothing relabels between the statistics phase and the optimiser: repopulate -> statistics -> optimise
+    c09.lifecycle(ctx, {"fresh-stats"})    # nothing relabels between the statistics phase and the optimiser: repopulate -> statistics -> optimise
